@@ -99,6 +99,22 @@ def check_input(O, S, leafmap):
         wantc = mine[0] * costs[1] + mine[1] * costs[3]
         if ic != wantc:
             return ("cost_mismatch", f"implementation cost {ic} of the LCA reconciliation != model cost {wantc} at {costs}"), True
+    # "equality when transfers are forbidden": the general solver at hgt = inf returns the LCA reconciliation and nothing else,
+    # under both policies and for unit losses as well as dear ones (3, 4: a loss term that is right only at loss = 1 shows)
+    if len(O.leaves) <= 4 and len(S.leaves) <= 4:
+        for costs in ((0, 1, INF, 1, 1), (0, 5, INF, 4, 1), (0, 2, INF, 3, 1)):
+            inp4, onode4, snode4 = A.build_input(O, S, leafmap, costs)
+            wantc = mine[0] * costs[1] + mine[1] * costs[3]
+            for policy in ("ANY", "ALL"):
+                try:
+                    outs = list(reconcile_thl(inp4, A.POLICY[policy]))
+                    got = [(A.mapping_of(o, onode4, snode4), A.impl_cost(o.cost())) for o in outs]
+                except Exception as exc:
+                    return ("exception", f"reconcile_thl/{policy} raised {type(exc).__name__}: {exc} at costs {A.costs_to_json(costs)}"), True
+                if [g[0] for g in got] != [want] or got[0][1] != wantc:
+                    return ("thl_at_inf", f"general solver at hgt = inf, policy {policy}, costs {A.costs_to_json(costs)}: returns "
+                                          f"{[(sorted(g[0].items(), key=str), g[1]) for g in got][:2]}, expected exactly the LCA "
+                                          f"mapping {sorted(want.items())} at cost {wantc}"), True
     # the same input read back from its dictionary form (as the command-line tool builds it), zero unit costs included
     for costs in ((0, 0, 7, 5, 1), (0, 5, 1, 0, 1), (0, 2, 3, 4, 0)):
         inp3, _, _ = A.build_input(O, S, leafmap, costs)
